@@ -6,6 +6,11 @@ spec -> code : every evaluated state TLC dumps (task environments x statuses / r
                bool, oracles(), nb_missing_labels()) is compared with the `out` TLC computed.  A sample of the
                states also goes through the real task pipeline (task_stats / test_stats / test_stats_by_labels
                -> Use -> EvalTestTask, executed task by task on an Env).
+read again   : a summary is read more than once: after the first projection the public read paths are exercised on
+               the live result (bool, classification_counts(result.classify, <success status>) / oracles() /
+               nb_missing_labels(), table and plot representers at several verbosities, for a sample the rst
+               formatting) and the summary is projected AGAIN; a second projection that differs from the first is
+               judged by the same TLC output / the same StatsTrace clauses (keys get the suffix /after-reading).
 code -> spec : seeded random bigger inputs (<= 8 tasks, <= 4 results each, 3 label names x 3 values, selections
                of 1-3 labels) are evaluated by the real classes, the projection recorded as JSON and the batch
                validated by TLC against StatsTrace.tla.
@@ -93,12 +98,80 @@ def project(case, res):
     return obs
 
 
+def _salt(case):
+    return zlib.crc32(json.dumps(case, sort_keys=True).encode())
+
+
+def look_at(case, res):
+    """The public read paths of an evaluated summary (what a report does with it, and what a user may call), none of
+    which takes a mutating argument.  Which verbosities are used is a function of the case content (2 of the 6 levels,
+    every level over the population of cases).  Returns the list of read paths that raised (rendering problems are not
+    C18's business: drift)."""
+    from valjean.cosette.task import TaskStatus
+    from valjean.gavroche.diagnostics import stats
+    from valjean.javert.representation import Representation, TableRepresenter, FullTableRepresenter, PlotRepresenter, FullRepresenter
+    from valjean.javert.verbosity import Verbosity
+    salt = _salt(case)
+    raised = []
+
+    def attempt(name, fn):
+        try:
+            fn()
+        except Exception as ex:   # pylint: disable=broad-except
+            raised.append('%s: %s: %s' % (name, type(ex).__name__, str(ex)[:120]))
+
+    def verdict():
+        bool(res)
+        if res:
+            pass
+        return not res
+
+    attempt('bool', verdict)
+    if case['kind'] in ('tasks', 'tests'):
+        first = TaskStatus.DONE if case['kind'] == 'tasks' else stats.TestOutcome.SUCCESS
+        attempt('classification_counts', lambda: stats.classification_counts(res.classify, first))
+        attempt('classify', lambda: [(k, len(v)) for k, v in res.classify.items()])
+    else:
+        attempt('oracles', lambda: list(res.oracles()))
+        attempt('nb_missing_labels', res.nb_missing_labels)
+    levels = list(Verbosity)
+    picked = [levels[(salt + k) % len(levels)] for k in (0, 3)]
+    for verb in picked:
+        attempt('table(%s)' % verb.name, lambda: (FullTableRepresenter if salt & 64 else TableRepresenter)()(res, verb))
+        attempt('plot(%s)' % verb.name, lambda: PlotRepresenter()(res, verb))
+    if salt % 32 == 0:
+        from valjean.javert.rst import Rst
+        attempt('rst(%s)' % picked[0].name, lambda: Rst(Representation(FullRepresenter(), verbosity=picked[0])).format_result(res))
+    if case['kind'] in ('tasks', 'tests'):
+        attempt('classification_counts', lambda: stats.classification_counts(res.classify, first))
+    attempt('bool', verdict)
+    return raised
+
+
+OBS_FIELDS = ('raised', 'error', 'classify', 'success', 'rows', 'missing', 'oracles')
+
+
+def project_twice(case, res):
+    """Projection right after the evaluation; then the summary is looked at and projected again: obs['again'] is the
+    second projection when it differs from the first one (None when reading changed nothing that is projected)."""
+    obs = project(case, res)
+    looked = look_at(case, res)
+    try:
+        again = project(case, res)
+    except Exception as ex:   # pylint: disable=broad-except
+        again = dict(raised=True, exc='%s: %s' % (type(ex).__name__, ex), error=False, classify=[], success=False, rows=[],
+                     missing=0, oracles=[])
+    obs['again'] = again if any(again[k] != obs[k] for k in OBS_FIELDS) else None
+    obs['read_raised'] = looked
+    return obs
+
+
 def observe(case):
     from valjean.gavroche.diagnostics.stats import TestStatsTestsByLabelsException
     task_results = build_task_results(case)
     try:
         res = make_test(case, task_results).evaluate()
-        obs = project(case, res)
+        obs = project_twice(case, res)
     except TestStatsTestsByLabelsException as ex:
         obs = dict(raised=False, exc=str(ex), error=True, classify=[], success=False, rows=[], missing=0, oracles=[])
     except Exception as ex:   # pylint: disable=broad-except
@@ -146,7 +219,7 @@ def observe_pipeline(case):
         if 'TestStatsTestsByLabels' in str(res.msg) and 'not found in test labels' in str(res.msg):
             return dict(raised=False, exc=str(res.msg), error=True, classify=[], success=False, rows=[], missing=0, oracles=[])
         return dict(raised=True, exc=str(res.msg)[-300:], error=False, classify=[], success=False, rows=[], missing=0, oracles=[])
-    return project(case, res)
+    return project_twice(case, res)
 
 
 observe_pipeline.counter = 0
@@ -292,15 +365,28 @@ def corrupted_twins(batch):
     return twins
 
 
+AFTER = '/after-reading'
+
+
 def replay_case(case):
-    """Re-run a recorded input on the implementation and let TLC (StatsTrace) judge the observation."""
+    """Re-run a recorded input on the implementation (evaluate, project, read the summary through its public read paths,
+    project again) and let TLC (StatsTrace) judge the observation(s)."""
     obs = observe(case)
     wd = tlc.workdir('c18r')
-    _, bad = validate_batch([to_trace_case(1, case, obs)], wd, 'replay')
-    clauses = set(b[1] for b in bad)
-    if clauses and trace_key(case, obs, clauses) is not None:
-        return False, 'StatsTrace rejects the observation, clauses %s; observed %r' % (sorted(clauses), obs)
-    return True, 'observation accepted by StatsTrace: %r' % (obs,)
+    batch = [to_trace_case(1, case, obs)]
+    if obs.get('again') is not None:
+        batch.append(to_trace_case(-1, case, obs['again']))
+    _, bad = validate_batch(batch, wd, 'replay')
+    for cid, o, when in ((1, obs, 'right after the evaluation'), (-1, obs.get('again'), 'after the summary has been read')):
+        clauses = set(b[1] for b in bad if b[0] == cid)
+        if clauses and trace_key(case, o, clauses) is not None:
+            return False, 'StatsTrace rejects the observation made %s, clauses %s; observed %r' % (when, sorted(clauses), _short(o))
+    return True, 'observation%s accepted by StatsTrace: %r' % (' (and the different one made after reading the summary)' if len(batch) > 1 else '',
+                                                               _short(obs))
+
+
+def _short(obs):
+    return {k: obs[k] for k in OBS_FIELDS + ('exc',) if k in obs}
 
 
 # ---------------------------------------------------------------------------------------------
@@ -374,6 +460,15 @@ def random_case(rng):
     return dict(kind=kind, tasks=tasks, sel=sel)
 
 
+def note_read_raised(ctx, case, obs, seen):
+    """A read path that raises is a rendering problem, not a counting one: not reported here (no alarm, no drift line), only
+    counted per (summary, read path, exception) for the evidence."""
+    for text in obs.get('read_raised') or ():
+        name, exc = text.split(': ')[:2]
+        tag = '%s %s %s' % (CLASSES[case['kind']], re.sub(r'\(.*', '', name), exc)
+        seen[tag] = seen.get(tag, 0) + 1
+
+
 def run_c18(ctx):
     ctx.rule('spec->code: every evaluated state dumped by TLC for Stats.tla (task summary: <= 4 task environments x 5 statuses x '
              'repeatable names; test summary: <= 3-4 tasks without results or with 1-2 results x verdict x repeatable names; per-label '
@@ -381,14 +476,18 @@ def run_c18(ctx):
              'both orders plus a label nobody carries) is evaluated by the real TestStatsTasks / TestStatsTests / '
              'TestStatsTestsByLabels on stub results; one state in seven (content hash) with distinct task names also runs through task_stats / '
              'test_stats / test_stats_by_labels + Use + EvalTestTask on an Env.  code->spec: seeded random bigger inputs validated '
-             'by TLC against StatsTrace.tla.  distinct_nontrivial counts inputs whose summary has two non-empty classes, a class of '
+             'by TLC against StatsTrace.tla.  read again: every summary (both directions, also through the pipeline) is then read through its public '
+             'read paths (bool, classification_counts / oracles / nb_missing_labels, table and plot representers at 2 of the 6 verbosities chosen '
+             'by the content hash, rst formatting for one in 32) and projected a second time; a second projection that differs is judged by the '
+             'same TLC output / StatsTrace clauses.  distinct_nontrivial counts inputs whose summary has two non-empty classes, a class of '
              'two, or at least one label row.')
     ctx.assume("results are TestResult objects; a task either has no 'result' key or a non-empty list; labels '_result' and "
                "'_test_name' are reserved; label values are strings; selections are non-empty and repetition-free")
     ctx.assume('names inside a class and rows of the per-label summary are compared as bags / sets (their order is presentation); '
                'a requested label carried by no result is the documented TestStatsTestsByLabelsException (deviation = drift)')
     wd = tlc.workdir('c18')
-    n_eval = n_pipe = n_states = 0
+    n_eval = n_pipe = n_states = n_again = 0
+    seen_raised = {}
     for name, consts in configs(ctx):
         cfg = tlc.write_cfg(os.path.join(wd, name + '.cfg'), constants=consts, invariants=INVS, deadlock=False)
         dump = os.path.join(wd, name)
@@ -421,6 +520,17 @@ def run_c18(ctx):
                     if how == 'pipeline':
                         text = 'through the task pipeline: ' + text
                     ctx.violation(key, text, case, module=MODULE)
+                note_read_raised(ctx, case, obs, seen_raised)
+                if obs.get('again') is not None:
+                    # the summary no longer projects to what it projected right after the evaluation: judged by the same TLC output
+                    n_again += 1
+                    diff2 = compare(case, exp, obs['again'])
+                    if diff2 and (diff is None or diff2[0] != diff[0]):
+                        key, text = diff2
+                        text = 'after the summary has been read (bool, counts, table / plot representations): ' + text
+                        if how == 'pipeline':
+                            text = 'through the task pipeline: ' + text
+                        ctx.violation(key + AFTER, text, case, module=MODULE)
             if _nontrivial(case, exp):
                 ctx.distinct((name, crc))
             if crc % 2999 == 1:
@@ -443,6 +553,12 @@ def run_c18(ctx):
         obs = observe(case)
         byid[cid] = (case, obs)
         batch.append(to_trace_case(cid, case, obs))
+        note_read_raised(ctx, case, obs, seen_raised)
+        if obs.get('again') is not None:
+            # second, different projection of the same summary: the same input with id -cid
+            n_again += 1
+            byid[-cid] = (case, obs['again'])
+            batch.append(to_trace_case(-cid, case, obs['again']))
     rejected = 0
     # binding self-test: corrupted twins of recorded observations ride along in the first batch and must be rejected
     twins = corrupted_twins(batch)
@@ -466,16 +582,28 @@ def run_c18(ctx):
             if key is None:
                 ctx.drift('label nobody carries did not raise the documented exception: %r' % (case,))
                 continue
+            if cid < 0:
+                first = trace_key(case, byid[-cid][1], clauses.get(-cid, set())) if -cid in clauses else None
+                if first == key:
+                    continue                   # already reported for the projection made right after the evaluation
+                rejected += 1
+                ctx.violation(key + AFTER, 'StatsTrace rejects the observation made after the summary has been read (bool, counts, table / plot '
+                              'representations), clauses %s; observed %r' % (sorted(clauses[cid]), _short(obs)), case, module=MODULE)
+                continue
             rejected += 1
-            ctx.violation(key, 'StatsTrace rejects the observation, clauses %s; observed %r' % (sorted(clauses[cid]), obs), case,
+            ctx.violation(key, 'StatsTrace rejects the observation, clauses %s; observed %r' % (sorted(clauses[cid]), _short(obs)), case,
                           module=MODULE)
     ctx.count(evaluations=len(batch), traces=len(batch))
-    for cid in list(byid)[:2]:
-        ctx.sample(dict(source='random', case=byid[cid][0], observed=byid[cid][1]))
+    for cid in [c for c in byid if c > 0][:2]:
+        ctx.sample(dict(source='random', case=byid[cid][0], observed=_short(byid[cid][1])))
     ctx.cov['exhaustive'] = True
     ctx.cov['explanation'] = ('exhaustive for the TLC configurations listed in tlc_runs (%d evaluated states, %d of them also through '
-                              'the task pipeline); random beyond them (%d inputs, %d rejected by TLC)'
-                              % (n_states, n_pipe, len(batch), rejected))
+                              'the task pipeline); random beyond them (%d inputs, %d rejected by TLC); every summary read again through its '
+                              'public read paths and projected a second time (%d second projections differed and were judged too)'
+                              % (n_states, n_pipe, n_random, rejected, n_again))
+    if seen_raised:
+        ctx.cov['explanation'] += ('; read paths that raised (rendering, outside C18, the summary is projected again all the same): %s'
+                                   % ', '.join('%s x%d' % kv for kv in sorted(seen_raised.items())))
     # extra module: the non-statistical comparison tests and the metadata test (Equal.tla, observations only, see conf_equal.py)
     import conf_equal
     conf_equal.run(ctx, tlc.workdir('c18equal'))
